@@ -610,6 +610,7 @@ type c15Pool struct {
 	jp          atomic.Int64
 	gate        chan struct{}
 	gateOnce    sync.Once
+	inv         *worker.DefaultInvokable[int]
 }
 
 type c15JobPanic struct{ id int }
@@ -636,6 +637,8 @@ func newC15Pool(r *c15Run) *c15Pool {
 	}
 	pl.p.SetWorkerSizeMaximum(mx)
 	pl.p.SetWorkerSizeStandBy(mx)
+	// Invoke / InvokeWithTimeout: the value carries the job id (+1000000 when submitted after Close returned)
+	pl.inv = worker.NewDefaultInvokable[int](pl.p, func(v int) { pl.job(v%1000000, v >= 1000000)() })
 	return pl
 }
 
@@ -666,6 +669,24 @@ func (pl *c15Pool) Op(_ *c15Thread, op string) func() string {
 				pl.lateSubmits.Add(1)
 			}
 			return c15QErr(pl.p.Schedule(pl.job(id, after)))
+		}
+	case strings.HasPrefix(op, "invoke:"), strings.HasPrefix(op, "invoket:"):
+		id, err := strconv.Atoi(op[strings.Index(op, ":")+1:])
+		if err != nil {
+			return nil
+		}
+		timed := strings.HasPrefix(op, "invoket:")
+		return func() string {
+			v := id
+			if pl.closeRet.Load() {
+				pl.lateSubmits.Add(1)
+				v += 1000000
+			}
+			if timed {
+				return c15QErr(pl.inv.InvokeWithTimeout(v, 20*time.Millisecond))
+			}
+			pl.inv.Invoke(v)
+			return "ok"
 		}
 	case op == "isclosed":
 		return func() string {
@@ -903,9 +924,26 @@ func c15StressOnce(comp string, par map[string]int, seed int64) ([5]int64, bool)
 		}
 		p.SetWorkerSizeMaximum(mx)
 		p.SetWorkerSizeStandBy(1)
+		inv := worker.NewDefaultInvokable[int](p, func(v int) {
+			if v == 1 {
+				late.Add(1)
+			}
+		})
 		userOp = func(u, i int, r *rand.Rand) {
 			after := closeRet.Load()
 			boom := r.Intn(6) == 0
+			if k := r.Intn(5); k == 0 || k == 1 {
+				v := 0
+				if after {
+					v = 1
+				}
+				if k == 0 {
+					inv.Invoke(v)
+				} else {
+					inv.InvokeWithTimeout(v, time.Millisecond)
+				}
+				return
+			}
 			p.Schedule(func() {
 				if after {
 					late.Add(1)
@@ -921,6 +959,10 @@ func c15StressOnce(comp string, par map[string]int, seed int64) ([5]int64, bool)
 				afterBad.Add(1)
 			}
 			if err := p.ScheduleWithTimeout(func() { late.Add(1) }, 5*time.Millisecond); err != worker.ErrWorkerPoolIsClosed {
+				afterBad.Add(1)
+			}
+			inv.Invoke(1) // no error result: must be dropped silently
+			if err := inv.InvokeWithTimeout(1, 5*time.Millisecond); err != worker.ErrWorkerPoolIsClosed {
 				afterBad.Add(1)
 			}
 			if !p.IsClosed() {
@@ -1066,6 +1108,87 @@ func init() {
 		if strings.HasPrefix(line, "stress ") {
 			return c15Stress(line)
 		}
+		if strings.HasPrefix(line, "corcaller ") {
+			return c15CorCaller(c15ParamsStr(strings.Fields(line)[1:]))
+		}
 		return c15RunSched(line)
 	}})
+}
+
+func c15ParamsStr(fields []string) map[string]string {
+	m := map[string]string{}
+	for _, f := range fields {
+		if i := strings.Index(f, "="); i > 0 {
+			m[f[:i]] = f[i+1:]
+		}
+	}
+	return m
+}
+
+// c15CorCaller: the finishing coroutine k is the CALLER side of an in-flight request: goroutine A is inside
+// k.YieldFrom(target, 5) (request delivered, waiting for the answer) while k's effect returns and k.close() closes
+// k's resultCh.  A gets the zero value; the target's YieldRef takes the request afterwards (mode=after) or had
+// taken it already and is parked at cor.yieldref.afterRecv (mode=parked): it must skip the answer (doCloseSafe on
+// the done caller) and return x = 5 — never send on k's closed resultCh.
+// Observation "A=ok<r> G=ok<x> | fin" (G=panic if the YieldRef panicked).
+func c15CorCaller(par map[string]string) string {
+	ctl := NewCtl()
+	defer ctl.Uninstall()
+	type cmd struct{ y int }
+	gcmd := make(chan cmd)
+	gres := make(chan string, 1)
+	var tg *fpgo.CorDef[int]
+	tg = fpgo.CorNewGenerics[int](func() {
+		ctl.c15Adopt("G")
+		for c := range gcmd {
+			gres <- c15Safe(func() string { return "ok" + strconv.Itoa(tg.YieldRef(c.y)) })
+		}
+	})
+	tg.Start()
+	defer close(gcmd)
+	kret := make(chan struct{})
+	var kgid int64
+	kready := make(chan struct{})
+	var k *fpgo.CorDef[int]
+	k = fpgo.CorNewGenerics[int](func() { kgid = fpgo.VerifGoID(); close(kready); <-kret })
+	k.Start()
+	<-kready
+	ctl.ParkAt("A", "cor.yieldfrom.beforeResult")
+	ares := make(chan string, 1)
+	ctl.Go("A", func() { ares <- c15Safe(func() string { return "ok" + strconv.Itoa(k.YieldFrom(tg, 5)) }) })
+	if !ctl.WaitAt("A", "cor.yieldfrom.beforeResult", c15Long) {
+		return "setup-failed A"
+	}
+	parked := par["mode"] == "parked"
+	if parked {
+		ctl.ParkAt("G", "cor.yieldref.afterRecv")
+		gcmd <- cmd{9}
+		if !ctl.WaitAt("G", "cor.yieldref.afterRecv", c15Long) {
+			return "setup-failed G"
+		}
+	}
+	close(kret) // k's effect returns: k.close() closes k's channels
+	deadline := time.Now().Add(c15Long)
+	for (c15GoroutineAlive(kgid) || !k.IsDone()) && time.Now().Before(deadline) {
+		time.Sleep(200 * time.Microsecond)
+	}
+	ctl.Release("A", "cor.yieldfrom.beforeResult")
+	a := "A!stuck"
+	select {
+	case x := <-ares:
+		a = "A=" + x
+	case <-time.After(c15Long):
+	}
+	if parked {
+		ctl.Release("G", "cor.yieldref.afterRecv")
+	} else {
+		gcmd <- cmd{9}
+	}
+	g := "G!stuck"
+	select {
+	case x := <-gres:
+		g = "G=" + x
+	case <-time.After(c15Long):
+	}
+	return a + " " + g + " | fin"
 }
